@@ -1,1 +1,15 @@
-// harness code mounted in serde_avro_fast (see DESIGN.md)
+// Mounted in serde_avro_fast::schema::self_referential — Schema construction helpers + C10 harnesses
+use super::*;
+use crate::schema::verif as nodes;
+
+/// A `Schema` over a caller-provided node array (root = element 0) with a caller-chosen fingerprint.
+/// The Vec points into `storage` (never dropped: callers `mem::forget` the schema).
+pub(crate) fn schema_over(storage: &'static mut [SchemaNode<'static>], fingerprint: [u8; 8]) -> Schema {
+	let n = storage.len();
+	Schema {
+		// SAFETY (verification only): storage outlives the schema, which is forgotten, never dropped or grown
+		nodes: unsafe { Vec::from_raw_parts(storage.as_mut_ptr(), n, n) },
+		fingerprint,
+		schema_json: String::new(),
+	}
+}
